@@ -14,7 +14,16 @@ RULE = ('random histories from harness/histgen.py (two weightings: default, and 
         '(doc action + undo actions it appended; calc delta batches; per-column flushes) and replayed by the Coq model; '
         'a case is non-trivial when the bundle changed the document; traces with a rename/removal between a calc '
         'delta and the flush are counted separately (histogram key pending-structure)')
-TRUSTED = ['Model/ActionLog.v is hand-written from docactions.py / action_summary.py / action_obj.py and tied to the running '
+TRUSTED = ['regenerated on every run (harness/da2v.py -> coq/gen/DocActions_gen.v, fail closed): the effect program of every '
+           'docactions.DocActions method (undo actions appended, summary calls, mutations, returns, guards, in source order) '
+           'and, statement by statement, ActionSummary._changes_to_actions, Engine._get_undo_checkpoint/_undo_to_checkpoint '
+           'and UserActions.doModifyColumn; bridged by reflexivity to the tables the model was written from '
+           '(C01_code_effects_bridge, C01_code_glue_bridge) and apply_doc is proved to follow one path of the regenerated '
+           'effect program for every doc action (C01_code_undo_paths); the value computations of docactions.py and '
+           'Engine._recompute_step are pinned by a comment/rename-invariant AST hash (harness/da2v_pins.json); the undo '
+           'constructors the engine appends per doc action are compared with the regenerated programs on every recorded '
+           'trace (stats gen-effects:*)',
+           'Model/ActionLog.v is hand-written from docactions.py / action_summary.py / action_obj.py and tied to the running '
            'code by the event-trace check on every run (model accepts every event, appends the same undo actions, ends '
            'with the same stored/undo lists and the same tables)',
            'cell values are modelled by their Grist encoding (Model/ActionLogEnc.v); Column.set normalisation per column '
@@ -70,6 +79,13 @@ LEVEL_NOTE = ('kernel strength: the theorems are about the action log (docaction
               'front-inserted restores); writes to cells with a pending delta and lossy actions are _partial: validated by '
               'trace refinement and oracles only.')
 PROOF_TIMEOUT = 900
+
+
+def regenerate(ctx):
+  """coq/gen/DocActions_gen.v from /repo: the effect programs of docactions.py and the skeletons of the K1 glue; the pinned
+  rest (value computations of docactions.py, Engine._recompute_step) is compared by normalised AST hash.  Fail closed."""
+  from harness import da2v
+  da2v.regenerate(ctx)
 
 
 def _k1():
